@@ -34,6 +34,9 @@ NONDET_CRATES = ("rand", "rand_core", "getrandom", "rand_chacha")
 NONDET_PREFIXES = ("std::time::", "std::env::", "std::process::id", "std::thread::current", "rand::")
 
 
+ENUM_NAMES = {}  # adt path -> [variant names], filled when facts are loaded (rendering only)
+
+
 def TOP(tag="?"):
     return ("top", tag, next(_top_counter))
 
@@ -490,6 +493,11 @@ def show(t, depth=0):
             "(%s:i%d as %d)" % (show(t[1], depth + 1), t[2], t[4])
     if k == "agg":
         name = t[1].split("::")[-1]
+        names = ENUM_NAMES.get(t[1][4:]) if t[1].startswith("adt:") else None
+        if names and t[2] is not None and t[2] < len(names):
+            if not t[3]:
+                return names[t[2]]
+            return "%s(%s)" % (names[t[2]], ", ".join(show(x, depth + 1) for x in t[3]))
         return "%s#%s(%s)" % (name, t[2], ", ".join(show(x, depth + 1) for x in t[3]))
     if k == "ret":
         return "%s(%s)" % (t[1].split("::")[-1], ", ".join(show(x, depth + 1) for x in t[2]))
